@@ -20,5 +20,12 @@ META = {
         "outside": ["message payloads longer than 2 bytes / lists longer than 1 element (the transition function never inspects them; not proven beyond that bound)"],
         "assumptions": ["ChangeCipherSpec is not a handshake message: its direction is pinned by the oracle only where the property's flows pin it (server's final CCS, 0-RTT client CCS)"],
     },
-    "C09": {}, "C10": {}, "C11": {}, "C12": {}, "C13": {}, "C14": {}, "C15": {}, "C16": {}, "C17": {}, "C18": {},
+    "C09": {}, "C10": {}, "C11": {}, "C12": {}, "C13": {}, "C14": {}, "C15": {}, "C16": {}, "C17": {
+        "e2": True,
+        "exhaustive": True,
+        "exhaustive_note": "exhaustive over each code-point domain (all 256 / 65536 values of every newtype) in the bit-vector queries; the IANA table in oracle-data/registry.tsv is the trusted oracle",
+        "outside": ["text of composite Debug output", "constants the crate defines that are not in oracle-data/registry.tsv are listed as constants_not_in_oracle, not judged"],
+        "assumptions": ["MIR text format of the installed nightly; a function body the encoder does not fully understand is refused (reported), never partially encoded",
+                        "fallback arm of the name tables is recognised syntactically (decimal + hex formatting of self.0); its exact text is decided on compiled code for TlsRecordType only"],
+    }, "C18": {},
 }
